@@ -131,7 +131,10 @@ def build(spec, order=None, names=None, maxtime=None):
     # countries first (all exist before sectors so that multi-output firms can name foreign markets)
     for c in spec['countries']:
         cc = NN(c, names, c['code'])
-        if c['region']:
+        if c['region'] and c.get('region_default_currency'):
+            # documented default: a Region takes the currency of the country declared just before it
+            b.countries[c['code']] = Region(m, cc)
+        elif c['region']:
             b.countries[c['code']] = Region(m, cc, currency=c['cur'])
         else:
             b.countries[c['code']] = Country(m, cc, currency=c['cur'])
